@@ -4,7 +4,7 @@ cd /verif
 for d in seeded/*/; do
   id=$(basename $d); prop=${id%-*}
   case "$prop" in C14|C16|C19|C05) continue;; esac
-  if git -C /repo apply --check "$d/patch.diff" 2>/dev/null; then
+  if git -C /repo apply --check "/verif/$d/patch.diff" 2>/dev/null; then
     res=$(tools/mutant.sh "$d/patch.diff" $prop 2>&1 | grep -E "VIOLATION|obligation:|UNDECIDED|tier=" | head -4 | tr '\n' ' ')
   else
     res="patch no longer applies to /repo HEAD"
